@@ -71,6 +71,10 @@ impl TombstoneLog {
 
         // Byte offset of the current partition within the whole log.
         let mut base = 0;
+        // Flushers append their batches concurrently, so slot order does not follow sequence order. While the
+        // log has not wrapped around, the tail is right behind the last used slot, wherever the newest sequence is.
+        let mut has_free_slot = false;
+        let mut last_used_offset = None;
         for partition in partitions.iter() {
             for offset in (0..partition.size()).step_by(PAGE) {
                 tracing::trace!(offset, "[tombstone log]: recover at");
@@ -88,8 +92,10 @@ impl TombstoneLog {
                         addr = base + offset + slot * Tombstone::SERIALIZED_LEN;
                     }
                     if tombstone.sequence == 0 {
+                        has_free_slot = true;
                         continue;
                     }
+                    last_used_offset = Some(base + offset + slot * Tombstone::SERIALIZED_LEN);
                     recovered.push((tombstone, addr));
                 }
             }
@@ -106,6 +112,10 @@ impl TombstoneLog {
                 *addr
             })
             .unwrap_or_default();
+        let latest_tombstone_offset = match (has_free_slot, last_used_offset) {
+            (true, Some(offset)) => offset,
+            _ => latest_tombstone_offset,
+        };
 
         tombstones.extend(recovered.into_iter().map(|(tombstone, _)| tombstone));
 
